@@ -256,7 +256,13 @@ func Generate(ms []Method) (gen string, gen7 string, reg string, err error) {
 		if len(m.Operand) > 0 {
 			operand = "[]byte{" + strings.Join(m.Operand, ", ") + "}"
 		}
-		spec := fmt.Sprintf("asmh.Spec{Opcode: 0x%02X, Operand: %s, Guard: %s, Label: %v, PadLen: %d}", m.Opcode, operand, m.Guard, m.Kind == "label", m.Len-1)
+		tracks := 0
+		if m.Mn == w65816.SEP {
+			tracks = 1
+		} else if m.Mn == w65816.REP {
+			tracks = 2
+		}
+		spec := fmt.Sprintf("asmh.Spec{Opcode: 0x%02X, Operand: %s, Guard: %s, Label: %v, PadLen: %d, Tracks: %d}", m.Opcode, operand, m.Guard, m.Kind == "label", m.Len-1, tracks)
 		// C03
 		fmt.Fprintf(&g, "// C03_%s: %s %s, opcode $%02X, %d bytes.\nfunc C03_%s() {\n\th := asmh.New()\n%s\trefused := vp.Try(func() { h.E.%s })\n\th.Check(refused, %s)\n}\n\n",
 			m.Name, w65816.MnNames[m.Mn], w65816.ModeNames[m.Mode], m.Opcode, m.Len, m.Name, strings.Join(decl, ""), callS, spec)
